@@ -9,7 +9,7 @@ EOVERFLOW = 75
 
 STR_FUNCS = {  # name -> (element width, kind)
     'strcpy_s': (1, 'cpy'), 'strcat_s': (1, 'cat'), 'strncpy_s': (1, 'ncpy'), 'strncat_s': (1, 'ncat'),
-    'wcscpy_s': (4, 'cpy'),
+    'wcscpy_s': (4, 'cpy'), 'wcscat_s': (4, 'cat'), 'wcsncpy_s': (4, 'ncpy'), 'wcsncat_s': (4, 'ncat'),
 }
 MEM_FUNCS = {  # name -> (element width, kind)
     'memcpy_s': (1, 'mcpy'), 'memmove_s': (1, 'mmove'), 'memcpy16_s': (2, 'mcpy'), 'memmove16_s': (2, 'mmove'),
@@ -324,7 +324,7 @@ def ref_str(case, consts):
     if m['src'] is None: return ('fail', 'src null')
     S = src_string(case)
     if kind in ('ncpy', 'ncat'):
-        if m['slen'] > consts['rmax_str']: return ('fail', 'slen > max')
+        if m['slen'] > rmax: return ('fail', 'slen > max')
         S = S[:m['slen']]
     P = []
     if kind in ('cat', 'ncat'):
